@@ -736,11 +736,63 @@ class V:
             d = self.shape_dim(shp[0], int_of(parts[0]))
             if d is not None:
                 return d
+        if all(self.intlike(p_) for p_ in parts):
+            r = self._elementwise(base, parts, top=True)          # (A / B)[i] = A[i] / B[i],  log(A)[i] = log(A[i]),  (v[:, None] * M)[i, j] = v[i] * M[i, j]
+            if r is not None:
+                return r
         if self.sh.rewrite is not None:
             r = self.sh.rewrite(base, ix, self)
             if r is not NotImplemented:
                 return r
         return F.fn("idx", base, ix)
+
+    def _elementwise(self, v, parts, top=False):
+        """the element `parts` (integers / loop counters, one per dimension) of an expression made of element-wise operations on arrays of known
+        dimensions (numpy broadcasting: an operand of r dimensions sees the last r indices; v[:, None] sees the first).  None: not that."""
+        if not israt(v):
+            return None
+        r = self.rank(v)
+        if r is None or r > len(parts) or (top and r != len(parts)):
+            return None
+        if r == 0:
+            return v
+        sub = parts[len(parts) - r:]
+        single = v.d.is_const() and len(v.n.t) == 1 and next(iter(v.n.t.values())) == v.d.const_value() and len(next(iter(v.n.t))) == 1 and next(iter(v.n.t))[0][1] == 1
+        if single:
+            a = next(iter(v.n.t))[0][0]
+            d = F.atom_desc(a)
+            if d[0] == "exp":
+                x = self._elementwise(F.Rat(F._poly_from_key(d[1])), parts)
+                return None if x is None else F.exp(x)
+            if d[0] == "fn" and d[1] in ("log", "abs") and len(d[2]) == 1:
+                x = self._elementwise(F.Rat(F._poly_from_key(d[2][0][1]), F._poly_from_key(d[2][0][2])), parts)
+                if x is None:
+                    return None
+                return F.log(x) if d[1] == "log" else self.np_call("abs", [x], {}, None)
+            if d[0] == "fn" and d[1] == "col" and r == 2:
+                x = F.Rat(F._poly_from_key(d[2][0][1]), F._poly_from_key(d[2][0][2]))
+                return None if self.rank(x) != 1 else self._elementwise(x, [sub[0]]) if not top else None
+            if top:
+                return None          # a plain array: the ordinary load
+            if d[0] == "s" or (d[0] == "fn" and d[1] in ("idx", "store", "carried", "loopres", "zeros", "cat")):
+                return self.mk_idx(v, mk_tuple_ix(list(sub)))
+            return None
+
+        def poly(p_):
+            tot = F.const(0)
+            for m, c in p_.t.items():
+                term = F.const(c)
+                for a, e in m:
+                    x = self._elementwise(F.Rat(F.Poly.atom(a)), parts)
+                    if x is None:
+                        return None
+                    term = term * x ** e
+                tot = tot + term
+            return tot
+        n_, d_ = poly(v.n), poly(v.d)
+        if n_ is None or d_ is None or d_.is_zero():
+            return None
+        return n_ / d_
 
     def _compose_open(self, X, jparts, parts):
         """X[i, a:b, c:d][k, l] -> X[i, a + k, c + l]: integer parts of the outer index fill the sliced (open) axes of the inner one in order"""
